@@ -855,11 +855,13 @@ func c04StringAccess(c *Ctx) {
 				case TSlice:
 					if isParamTerm(x.X, m.jsonV) {
 						n++
-						if !m.loopVar(x.Lo, m.idxV) || x.Hi != nil || x.Max != nil {
+						if m.isCurRuneBytes(s) {
+							// json[i:i+size] with size the width utf8.DecodeRuneInString(json[i:]) reported: never more than len(json[i:])
+						} else if !m.loopVar(x.Lo, m.idxV) || x.Hi != nil || x.Max != nil {
 							bad = "slice " + c.termStr(s) + " of the input is not json[i:] with the loop index i < len(json): it can go out of range on short input"
 						}
 					}
-					if inner, ok := x.X.(TSlice); ok && isParamTerm(inner.X, m.jsonV) {
+					if inner, ok := x.X.(TSlice); ok && isParamTerm(inner.X, m.jsonV) && !m.isCurRuneBytes(s) {
 						bad = "re-slicing " + c.termStr(s) + " of the rest of the input is not decided: it can go out of range on short input"
 					}
 				case TIndex:
